@@ -207,6 +207,11 @@ class ValueMapping:
         # Attributes for converting Values strings to binary values:
         self._v2b_dict = {}  # values: bin (int or tuple)
 
+        # All items in the order of the ValueMap qualifier, for items().
+        # A separate list is needed because several ValueMap entries can have
+        # the same Values string (e.g. when values_default is filled in).
+        self._items_list = []  # tuple(bin (int or tuple or None), values)
+
     @classmethod
     def for_property(cls, server, namespace, classname, propname,
                      values_default=None):
@@ -698,11 +703,13 @@ class ValueMapping:
         vm._b2v_range_tuple_list = []
         vm._b2v_unclaimed = None
         vm._v2b_dict = OrderedDict()
+        vm._items_list = []
         for i, valuemap_str in enumerate(valuemap_list):
             values_str = values_list[i]
             if valuemap_str == '..':
                 vm._b2v_unclaimed = values_str
                 vm._v2b_dict[values_str] = None
+                vm._items_list.append((None, values_str))
             else:
                 lo, hi, values_str = vm._values_tuple(
                     i, valuemap_list, values_list, cimtype)
@@ -710,10 +717,12 @@ class ValueMapping:
                     # single value
                     vm._b2v_single_dict[lo] = values_str
                     vm._v2b_dict[values_str] = lo
+                    vm._items_list.append((lo, values_str))
                 else:
                     # value range
                     vm._b2v_range_tuple_list.append((lo, hi, values_str))
                     vm._v2b_dict[values_str] = (lo, hi)
+                    vm._items_list.append(((lo, hi), values_str))
 
         return vm
 
@@ -1004,6 +1013,5 @@ class ValueMapping:
           string.
         """
 
-        for values_str in self._v2b_dict:
-            element_value = self._v2b_dict[values_str]
+        for element_value, values_str in self._items_list:
             yield element_value, values_str
